@@ -22,6 +22,7 @@
 
 #include <cassert>
 #include <cctype>
+#include <cfloat>
 #include <cmath>
 #include <cstdio>
 #include <cstdlib>
@@ -62,8 +63,10 @@ using std::size_t;
 // number strings when we don't have to,
 const size_t    MAX_PRINTF_DIGITS = 100;
 
-// The maximum number of characters for a floating point number.
-const size_t    MAX_FLOAT_CHARACTERS = 100;
+// The maximum number of characters sprintf() can produce for a double
+// with the "%.35f" format: a sign, DBL_MAX_10_EXP + 1 integer digits,
+// the decimal point and 35 fractional digits.
+const size_t    MAX_FLOAT_CHARACTERS = 1 + (DBL_MAX_10_EXP + 1) + 1 + 35;
 
 
 
@@ -1439,7 +1442,7 @@ DOMStringHelper::NumberToCharacters(
     }
     else
     {
-        char            theBuffer[MAX_PRINTF_DIGITS + 1];
+        char            theBuffer[MAX_FLOAT_CHARACTERS + 1];
 
         using std::sprintf;
         using std::atof;
@@ -1503,7 +1506,7 @@ DOMStringHelper::NumberToCharacters(
             }
         }
 
-        XalanDOMChar    theResult[MAX_PRINTF_DIGITS + 1];
+        XalanDOMChar    theResult[MAX_FLOAT_CHARACTERS + 1];
 
         TranscodeNumber(
                 theBuffer,
@@ -1739,7 +1742,7 @@ NumberToDOMString(
     }
     else
     {
-        char            theBuffer[MAX_PRINTF_DIGITS + 1];
+        char            theBuffer[MAX_FLOAT_CHARACTERS + 1];
 
         using std::sprintf;
         using std::atof;
